@@ -8,7 +8,6 @@ import (
 	"github.com/berquerant/crd/input"
 	"github.com/berquerant/crd/input/ast"
 	"github.com/spf13/cobra"
-	"gopkg.in/yaml.v3"
 )
 
 func init() {
@@ -130,7 +129,7 @@ func (args textCmdArgs) convert(w io.Writer, converter astconv.Converter) error 
 		result[i] = y
 	}
 
-	b, err := yaml.Marshal(result)
+	b, err := marshalYaml(result)
 	if err != nil {
 		return err
 	}
